@@ -18,6 +18,7 @@ impl<T: Qcow2IoOps> Qcow2Dev<T> {
     #[inline]
     pub(crate) async fn call_write(&self, offset: u64, buf: &[u8]) -> Qcow2Result<()> {
         log::trace!("write_from off {:x} len {}", offset, buf.len());
+        self.unsynced.store(true, std::sync::atomic::Ordering::Relaxed);
         self.file.write_from(offset, buf).await
     }
 
@@ -29,6 +30,7 @@ impl<T: Qcow2IoOps> Qcow2Dev<T> {
         flags: u32,
     ) -> Qcow2Result<()> {
         log::trace!("fallocate off {:x} len {}", offset, len);
+        self.unsynced.store(true, std::sync::atomic::Ordering::Relaxed);
         let res = self.file.fallocate(offset, len, flags).await;
         match res {
             Err(_) => {
@@ -66,11 +68,26 @@ impl<T: Qcow2IoOps> Qcow2Dev<T> {
         Ok(())
     }
 
+    /// fsync iff something was written since the last fsync
+    pub(crate) async fn sync_unsynced(&self) -> Qcow2Result<()> {
+        if self.unsynced.load(std::sync::atomic::Ordering::Relaxed) {
+            self.call_fsync(0, usize::MAX, 0).await?;
+        }
+        Ok(())
+    }
+
     /// flush data range in (offset, len) to disk
     #[inline]
     pub(crate) async fn call_fsync(&self, offset: u64, len: usize, flags: u32) -> Qcow2Result<()> {
         log::trace!("fsync off {:x} len {} flags {}", offset, len, flags);
-        self.file.fsync(offset, len, flags).await
+        // cleared first: whatever is written while the sync is in flight is
+        // not covered by it
+        self.unsynced.store(false, std::sync::atomic::Ordering::Relaxed);
+        let res = self.file.fsync(offset, len, flags).await;
+        if res.is_err() {
+            self.unsynced.store(true, std::sync::atomic::Ordering::Relaxed);
+        }
+        res
     }
 
     async fn load_top_table<B: Table>(&self, top: &AsyncRwLock<B>, off: u64) -> Qcow2Result<usize> {
@@ -402,10 +419,12 @@ impl<T: Qcow2IoOps> Qcow2Dev<T> {
             let end = key_fn(((idx + 1) as u64) << bs_bits);
 
             let res = async {
-                if self.flush_cache(cache, start, end).await? {
-                    // order cache flush and the upper layer table
-                    self.call_fsync(0, usize::MAX, 0).await?;
-                }
+                self.flush_cache(cache, start, end).await?;
+                // order cache flush and the upper layer table: everything the
+                // block points to has to be durable first - the slices just
+                // flushed, and also slices written back earlier by a cache
+                // eviction (nobody synced those)
+                self.sync_unsynced().await?;
                 self.flush_table(rt, idx << bs_bits, 1 << bs_bits).await
             }
             .await;
@@ -419,9 +438,10 @@ impl<T: Qcow2IoOps> Qcow2Dev<T> {
             Ok(false)
         } else {
             // flush cache without holding top table read lock
-            if self.flush_cache(cache, 0, usize::MAX).await? {
-                self.call_fsync(0, usize::MAX, 0).await?;
-            }
+            self.flush_cache(cache, 0, usize::MAX).await?;
+            // also covers top table blocks written by earlier rounds: what is
+            // flushed next (the other kind of meta data) depends on them
+            self.sync_unsynced().await?;
             Ok(true)
         }
     }
